@@ -738,8 +738,22 @@ func main() {
 			}
 			var holds []held
 			hold := func() {
-				ctx := baggage.ContextWithBaggage(context.Background(), cur)
+				// contexts are derived from one another: each new baggage (an emptied one too) is stored on top
+				// of the context holding the previous one and must be what FromContext and Inject see there
+				parent := context.Background()
+				if len(holds) > 0 && r.Bool() {
+					parent = holds[len(holds)-1].ctx
+				}
+				ctx := baggage.ContextWithBaggage(parent, cur)
 				holds = append(holds, held{ctx, modelOf(cur).canon()})
+				if got := modelOf(baggage.FromContext(ctx)).canon(); got != modelOf(cur).canon() {
+					k.Violate("context-holds-another-baggage", "stored over a context that already carried baggage", fmt.Sprintf("stored %s, FromContext yields %s", modelOf(cur).canon(), got), nil)
+				}
+				car := mapCarrier{}
+				prop.Inject(ctx, car)
+				if cur.Len() == 0 && car["baggage"] != "" {
+					k.Violate("context-holds-another-baggage", "empty baggage injected as non-empty", car["baggage"], nil)
+				}
 			}
 			hold()
 			for op := 0; op < 5+r.Intn(30); op++ {
